@@ -102,6 +102,12 @@ def generate(ctx):
                 pre += [["trainer_mode", t0, False], ["layer_step", live_layer], ["trainer_mode", t0, True]]
             pre += [["layer_step", live_layer], ["trainer_step", t0], ["listings", t0]]
             ops = pre + ops
+        if rng.random() < 0.4:
+            ci = rng.randrange(len(cells))
+            lay = cells[ci][0]
+            at = rng.randrange(len(ops) + 1)
+            ops[at:at] = [["register_cell", 0, ci], ["layer_step", lay], ["strip_and_reregister", 0, ci], ["layer_step", lay],
+                          ["trainer_step", 0], ["listings", 0]]
         yield {"kinds": kinds, "ops": ops, "seed": rng.randrange(1 << 30), "cells": cells}
 
 
@@ -295,6 +301,28 @@ def run_case(ctx, desc):
                 ctx.case(f"del_monitor/{tk}/{cells[ci][0]}")
                 trainers[ti].del_monitor(*key)
                 del probes[ti][key]
+            elif k == "strip_and_reregister":
+                # every monitor of the cell (the trainer's own ones included) is deleted one by one with del_monitor, then the
+                # cell is removed and registered again under the name it had: the name is free again and recording starts anew
+                ci = op[2]
+                cn = name_of(ci)
+                if cn not in reg[ti]:
+                    return None
+                ctx.case(f"strip_and_reregister/{tk}/{cells[ci][0]}")
+                for mn in [mn for mn, _ in trainers[ti].named_monitors_of(cn)]:
+                    trainers[ti].del_monitor(cn, mn)
+                if list(trainers[ti].named_monitors_of(cn)):
+                    return ctx.violation("del_monitor.listing_not_empty_after_deleting_every_monitor",
+                                         f"named_monitors_of('{cn}') still lists monitors", rdesc)
+                trainers[ti].del_cell(cn)
+                for key in [p for p in probes[ti] if p[0] == cn]:
+                    del probes[ti][key]
+                del reg[ti][cn]
+                seen[ti].pop(cn, None)
+                trainers[ti].register_cell(cn, w.cell(cells[ci]))
+                reg[ti][cn] = ci
+                seen[ti][cn] = 0
+                ctx.count("cells_stripped_of_monitors_then_reregistered")
             elif k == "trainer_mode":
                 ctx.case(f"trainer_mode/{tk}/{op[2]}", nontrivial=False)
                 trainers[ti].train(op[2])
